@@ -2,6 +2,8 @@ import Flowjaxv.Proofs.DistTheory
 import Flowjaxv.Proofs.Leaves
 import Flowjaxv.Proofs.Flows
 import Flowjaxv.Proofs.JaxTransforms
+import Flowjaxv.Proofs.MergeGen
+import Flowjaxv.Proofs.MergeGenWF
 /-!
 # C03 — transformed densities obey change of variables on both evaluation paths
 
@@ -228,6 +230,118 @@ theorem gen_scan_transformed_consistent {X C K : Type} (base : Distn X C K ℝ) 
   Gen.transformed_consistent _ (JaxTrProofs.scan_lawful h.lawful) (JaxTrProofs.scan_ld_antisym h) hc hD
 
 end JaxTransformsGen
+
+
+/-! ## `merge_transforms`, `shape`, `cond_shape` of `AbstractTransformed`, REGENERATED (`Gen/MergeGen.lean`, translated from
+`distributions.py` on every run by `tools/py2lean/py2meth.py`, sheet `targets_merge.py`; objects and Python constructs:
+`Model/MergeWorld.lean`; proofs: `Proofs/MergeGen.lean`) -/
+section MergeGen
+open Mw GenMerge MergeGen
+
+/-- **the generated `merge_transforms`, exactly** (every nesting depth, every — possibly nested-chain — bijections): `self` when
+the base is not an `AbstractTransformed`; otherwise `Transformed(root, Chain([b₁, …, bₙ]).merge_chains())` with the bijections
+INNERMOST FIRST and `self.bijection` LAST, built by the regenerated constructors (whose exceptions are the only ones; the
+`while` loop never runs out of fuel). -/
+theorem gen_merge_transforms_eq {X C K α : Type} (t : TObj X C K α) :
+    Transformed.mergeTransforms t =
+      if !t.base_dist.isTransformed then .ok t else
+        (Mw.mkChain t.toD.bijs).bind fun c =>
+          (Chain.mergeChains c).bind fun c' => Mw.mkTransformed t.base_dist.root c'.toB :=
+  MergeGen.mergeTransforms_eq t
+
+/-- **generated `merge_transforms` = the hand model `mergeTransforms`**: whenever it returns `m`, the base of `m` is the
+innermost distribution (not an `AbstractTransformed`) and `m` — evaluated through the generated `AbstractTransformed` methods and
+the generated `Chain` — is `mergeTransforms root [b₁, …, bₙ]` -/
+theorem gen_merge_transforms_model {X C K : Type} (t m : TObj X C K ℝ) (h : Transformed.mergeTransforms t = .ok m) :
+    m.base_dist = t.toD.root ∧ m.base_dist.isTransformed = false ∧
+    m.toD.toDistn = mergeTransforms t.toD.root.toDistn (t.toD.bijs.map B.toBij) :=
+  MergeGen.mergeTransforms_model t m h
+
+/-- **generated `merge_transforms` never changes the distribution** (every nesting depth): same `_log_prob`, `_sample`,
+`_sample_and_log_prob` as the nested distribution -/
+theorem gen_merge_transforms_sem {X C K : Type} (t m : TObj X C K ℝ) (h : Transformed.mergeTransforms t = .ok m) :
+    t.toD.toDistn.Equiv m.toD.toDistn := MergeGen.mergeTransforms_sem t m h
+
+/-- … spelled out for `log_prob`: the merged distribution assigns every point the nested distribution's log-density -/
+theorem gen_merge_transforms_log_prob {X C K : Type} (t m : TObj X C K ℝ) (h : Transformed.mergeTransforms t = .ok m)
+    (x : X) (c : C) : m.toD.toDistn.logProb x c = t.toD.toDistn.logProb x c :=
+  ((MergeGen.mergeTransforms_sem t m h).logProb x c).symm
+
+/-- the distribution objects compute the nested change of variables of C03 (`nestTransformed` over the innermost base) -/
+theorem gen_nested_object_sem {X C K : Type} (d : D X C K ℝ) :
+    d.toDistn = nestTransformed d.root.toDistn (d.bijs.map B.toBij) := MergeGen.toDistn_eq_nest d
+
+/-- **generated `cond_shape`** = the regenerated `merge_cond_shapes` of `(bijection.cond_shape, base_dist.cond_shape)` -/
+theorem gen_transformed_cond_shape {X C K α : Type} (t : TObj X C K α) (cd : Option PyShape.Shape)
+    (hcd : t.base_dist.cond_shape = .ok cd) :
+    Transformed.condShape t = Mw.liftPy (GenCtors.mergeCondShapes [t.bijection.cond_shape, cd]) ∧
+    Transformed.condShape t = t.toD.cond_shape := by
+  refine ⟨?_, MergeGen.condShape_dispatch t⟩
+  rw [MergeGen.condShape_eq, hcd]; rfl
+
+/-- `merge_cond_shapes` of the two sides, every case: `None` is neutral, equal shapes merge, different shapes are a ValueError -/
+theorem gen_transformed_cond_shape_cases (a b : Option PyShape.Shape) :
+    GenCtors.mergeCondShapes [a, b] =
+      match a, b with
+      | none, none => .ok none
+      | some s, none => .ok (some s)
+      | none, some s => .ok (some s)
+      | some s, some s' => if s = s' then .ok (some s) else .error .valueError := MergeGen.mergeCond_pair a b
+
+/-- **the scalar condition shape `()` is not "falsy"**: a conditional base with `cond_shape == ()` under an unconditional
+bijection (and the other way round) has `cond_shape == ()`, not `None` -/
+theorem gen_transformed_cond_shape_scalar_instance {X C K α : Type} (d : Distn X C K α) (b : Bij X C α) (s : PyShape.Shape) :
+    Transformed.condShape (⟨.base d s (some []), .leaf b s none⟩ : TObj X C K α) = .ok (some []) ∧
+    Transformed.condShape (⟨.base d s none, .leaf b s (some [])⟩ : TObj X C K α) = .ok (some []) ∧
+    Transformed.condShape (⟨.base d s none, .leaf b s none⟩ : TObj X C K α) = .ok none ∧
+    Transformed.condShape (⟨.transformed (.base d s (some [])) (.leaf b s none), .leaf b s none⟩ : TObj X C K α) = .ok (some []) := by
+  refine ⟨?_, ?_, ?_, ?_⟩ <;> simp [MergeGen.condShape_eq, D.cond_shape, B.cond_shape, MergeGen.mergeCond_pair, Mw.liftPy, Except.bind]
+
+/-- the generated `shape` property is the base distribution's shape, at every nesting level the innermost one's -/
+theorem gen_transformed_shape {X C K α : Type} (t : TObj X C K α) :
+    Transformed.shape t = t.base_dist.shape ∧ Transformed.shape t = t.toD.root.shape := by
+  refine ⟨rfl, ?_⟩
+  show t.base_dist.shape = t.base_dist.root.shape
+  induction t.base_dist with
+  | base d s c => rfl
+  | transformed d b ih => simpa [D.shape, D.root] using ih
+
+/-- non-vacuity by kernel evaluation at ℤ: `Transformed(Transformed(Transformed(base, x+1), 2x), Chain([x+3, Chain([−x, Chain([2x])])]))`
+— three levels, non-commuting bijections, a doubly nested chain.  `merge_transforms()` returns a distribution over the root with a
+flat chain of 5 members, and `log_prob(20)`, `sample(5)`, `sample_and_log_prob(5)` equal the nested distribution's
+(`((5+1)·2+3)·(−1)·2 = −30`; a collection order other than innermost-first gives other numbers). -/
+theorem gen_merge_transforms_instance :
+    Inst.summary Inst.t3 = some (-11047, -30, (-30, -11086), 5, false, false) ∧
+    ((Inst.t3.toD.toDistn).logProb 20 (), (Inst.t3.toD.toDistn).sample 5 (), (Inst.t3.toD.toDistn).sampleLp 5 ())
+      = (-11047, -30, (-30, -11086)) := ⟨by decide, by decide⟩
+
+/-- **`cond_shape` of a nested distribution built by the (regenerated) constructors never raises**: it is the
+`merge_cond_shapes` of the innermost base's and all the bijections' condition shapes -/
+theorem gen_transformed_cond_shape_total {X C K α : Type} (d : D X C K α) (h : MergeGen.WFD d) :
+    ∃ r, D.cond_shape d = .ok r ∧ MergeGen.Merges (MergeGen.rootCond d :: d.bijs.map B.cond_shape) r :=
+  MergeGen.condShape_wfd d h
+
+/-- **`merge_transforms` returns** on every nested distribution built by the constructors (every `Transformed` node passed the
+regenerated `__check_init__`, every `Chain` inside a bijection carries the fields the regenerated `Chain.__init__` computes) whose
+bijections declare one common shape — every nesting depth.  The shape hypothesis is forced: `Transformed` never compares
+`bijection.shape` with `base_dist.shape` (real code: `Transformed(Transformed(StandardNormal((2,)), Exp((2,))), Exp(()))`
+constructs; its `log_prob` and `merge_transforms()` raise ValueError). -/
+theorem gen_merge_transforms_returns {X C K α : Type} (t : TObj X C K α) (h : MergeGen.WFD t.toD) (s : PyShape.Shape)
+    (hs : ∀ b ∈ t.toD.bijs, b.shape = s) : ∃ m, Transformed.mergeTransforms t = .ok m :=
+  MergeGen.mergeTransforms_wf t h s hs
+
+/-- non-vacuity of the hypotheses of `gen_merge_transforms_returns`: the three-level object of `gen_merge_transforms_instance` -/
+theorem gen_merge_transforms_returns_instance :
+    MergeGen.WF Inst.nestedChain.toB ∧ MergeGen.WFD Inst.t3.toD ∧ (∀ b ∈ Inst.t3.toD.bijs, b.shape = []) := by
+  have hwf : MergeGen.WF Inst.nestedChain.toB := by
+    simp [Inst.nestedChain, ChainObj.toB, MergeGen.WF, MergeGen.WFL, MergeGen.Merges, Inst.shift, Inst.neg, Inst.dbl, B.shape,
+      B.cond_shape]
+  refine ⟨hwf, ⟨⟨⟨trivial, trivial, ⟨_, rfl⟩⟩, trivial, ⟨_, rfl⟩⟩, hwf, ⟨_, rfl⟩⟩, ?_⟩
+  intro b hb
+  simp [Inst.t3, TObj.toD, D.bijs] at hb
+  rcases hb with rfl | rfl | rfl <;> rfl
+
+end MergeGen
 
 
 end C03
